@@ -157,6 +157,8 @@ def case_mtl(sp):
         raised = False
     except ValueError:
         raised = True
+    except RuntimeError:
+        raised = "late"  # not rejected for its arguments: it failed somewhere inside the differentiation
     obs.append(Ob("overlapping_default_sets_rejected", raised == overlap, cex))
     if raised or overlap:
         return obs
